@@ -249,6 +249,8 @@ def run(repo, chk):
            + ("holds for " + str([s_ for _, s_, _ in stores]) if all(o for _, _, o in stores) else
               "VIOLATED by " + str([f"{q}: {s_}" for q, s_, o in stores if not o]) + " -- a provisional value is visible to other threads"))
 
+    from .shared import variant_selection_obligations
+    variant_selection_obligations(repo, chk, "R08.1")
     # ---------------- R08.2
     for e in ENTRY_POINTS:
         repo.func(e)
